@@ -49,6 +49,8 @@ THEOREMS = [
     "Opacus.C08.overshoot_witnesses",
     "Opacus.C08.model_agrees_with_float",
     "Opacus.Binary64.rne_rel_error",
+    # the tie to the source: Generated/FloatBookkeeping.lean is re-translated from privacy_engine.py, accountants/utils.py, utils/uniform_sampler.py on every run
+    "Opacus.C08.generated_bookkeeping_eq_model",
 ]
 RULE = (
     "calibration case = (accountant in {rdp,gdp,prv} or synthetic eps family+params, target, delta, L, epochs|steps, tolerance, fuel) drawn from VERIF_SEED; "
@@ -249,7 +251,14 @@ def norm_variant(x):
     return x if x in ("asCoded", "repaired") else "asCoded"
 
 
+def regenerate(ctx):
+    from .. import regen
+    from . import c08_trans as T
+    regen.regenerate(ctx, T, "Opacus.Generated.Float", "float bookkeeping (privacy_engine.py, accountants/utils.py, utils/uniform_sampler.py)")
+
+
 def run(ctx):
+    regenerate(ctx)
     torch.manual_seed(ctx.rng.randrange(2**31))
     v = detect_variants(ctx)
     vlen, vsteps = norm_variant(v["len"]), norm_variant(v["gnm_steps"])
